@@ -6,7 +6,7 @@ from ..engine import Finding
 
 ID = 'C18'
 TITLE = 'decorators are transparent: same results, same signature, no double wrapping'
-LEAN_FILES = ['Basic', 'Bind', 'Cache', 'Wrap', 'BindDriver', 'Cmp', 'BindLemmas', 'CacheLemmas', 'WrapLemmas', 'ResDec', 'C18']
+LEAN_FILES = ['Basic', 'Bind', 'Cache', 'Wrap', 'BindDriver', 'Cmp', 'BindLemmas', 'CacheLemmas', 'CacheKeyLemmas', 'WrapLemmas', 'ResDec', 'C18']
 RULE = ('distinct protocol lines on which the implementation returned a value: a (signature, call) pair bound / called / '
         'round-tripped, a (signature, decorator stack, call) triple, a construction sequence of wrappers, or a cache history '
         'with at least two calls; calls without any argument on a parameterless function are not counted')
@@ -16,7 +16,7 @@ TRUSTED = ['correspondence harness (pv.engine, pv.proto) and generators of pv.pr
 ASSUMPTIONS = ['CPython call protocol = the reference binder bindRef of the model (sampled: every enumerated call is also bound by inspect.getcallargs and by an actual call)',
                'functions are built by exec from the signature; parameter names a,b,c,d, *args, **kw',
                'wrapper equality is compared on class, parameters and wrapped function recursively, ignoring the memo field function_fullargspec',
-               'cache keys: arguments are ints/floats/bools/strings/None and lists/tuples/dicts of them (always hashable after _prehash; no NaN); list/tuple twins are not generated',
+               'cache keys: arguments are ints/floats/bools/strings/None, lists/tuples/dicts of them, sets of ints and int ndarrays (written as ~set:/~arr: strings on the wire); "the same combination" = python == of (args, kwargs) (1 == 1.0 == True, keyword order irrelevant, [1] != (1,), {"a":1} != (("a",1),)); NaN arguments are not generated (nan != nan: every call is a new combination)',
                'object identity is not modelled: the constructor edits inner wrapper objects of its operand in place; only the returned object is compared']
 EXHAUSTIVE = {'quick': False, 'thorough': False}
 EXTRA = {}
@@ -215,18 +215,84 @@ def scalar(rng):
     return rng.choice([0, 1, 2, 1.0, 2.5, True, 'x', 'y', None, -3])
 
 
-def cache_arg(rng):
+def cache_arg(rng, unhashable=False):
     r = rng.random()
+    if unhashable and r < 0.5:
+        # a set of ints / an int ndarray, written as a marker string (see `unmark`)
+        xs = sorted(rng.sample([1, 2, 3], rng.choice([1, 2])))
+        return ('~set:' if r < 0.25 else '~arr:') + ','.join(map(str, xs))
     if r < 0.12:
         return '~none'           # makes the generated function return None (see `body`)
-    if r < 0.6:
+    if r < 0.5:
         return scalar(rng)
-    if r < 0.8:
+    if r < 0.64:
         return [scalar(rng) for _ in range(rng.choice([0, 1, 2]))]
+    if r < 0.72:
+        return tuple(scalar(rng) for _ in range(rng.choice([0, 1, 2])))
+    if r < 0.8:
+        return [[scalar(rng)], (scalar(rng),)][:rng.choice([1, 2])]
+    if r < 0.86:
+        return tuple(('p', scalar(rng)) for _ in range(rng.choice([0, 1])))      # looks like the pairs of a dict
     return {k: scalar(rng) for k in rng.sample(['p', 'q', 'r'], rng.choice([1, 2]))}
 
 
-def gen_cache(rng, raising=False):
+def seq_twin(rng, v):
+    """an argument that the pinned `_prehash` mapped to the same key although it is a different value:
+    list <-> tuple (at any depth), dict <-> tuple of its sorted pairs"""
+    if isinstance(v, list):
+        return tuple(v) if rng.random() < 0.7 else [seq_twin(rng, x) for x in v]
+    if isinstance(v, tuple):
+        if v and all(isinstance(x, tuple) and len(x) == 2 and isinstance(x[0], str) for x in v) and len({x[0] for x in v}) == len(v) and rng.random() < 0.6:
+            return dict(v)
+        return list(v)
+    if isinstance(v, dict):
+        return tuple(sorted(v.items(), key=lambda kv: kv[0]))
+    return v
+
+
+def mark(v):
+    """sets / arrays -> the marker strings of the wire"""
+    import numpy as np
+    if isinstance(v, (set, frozenset)):
+        return '~set:' + ','.join(str(int(x)) for x in sorted(v))
+    if isinstance(v, np.ndarray):
+        return '~arr:' + ','.join(str(int(x)) for x in v)
+    if isinstance(v, list):
+        return [mark(x) for x in v]
+    if isinstance(v, tuple):
+        return tuple(mark(x) for x in v)
+    if isinstance(v, dict):
+        return {k: mark(x) for k, x in v.items()}
+    return v
+
+
+def unmark(v, rng=None):
+    import numpy as np
+    if isinstance(v, str) and v.startswith('~set:'):
+        xs = [int(x) for x in v[5:].split(',') if x]
+        return set(reversed(xs))
+    if isinstance(v, str) and v.startswith('~arr:'):
+        return np.array([int(x) for x in v[5:].split(',') if x])
+    if isinstance(v, list):
+        return [unmark(x) for x in v]
+    if isinstance(v, tuple):
+        return tuple(unmark(x) for x in v)
+    if isinstance(v, dict):
+        return {k: unmark(x) for k, x in v.items()}
+    return v
+
+
+def has_arr(v):
+    if isinstance(v, str):
+        return v.startswith('~arr:')
+    if isinstance(v, (list, tuple)):
+        return any(has_arr(x) for x in v)
+    if isinstance(v, dict):
+        return any(has_arr(x) for x in v.values())
+    return False
+
+
+def gen_cache(rng, raising=False, unhashable=False):
     sig = rng.choice([(['a'], [], None, None), (['a', 'b'], [DEFAULTS[0]], None, None), (['a', 'b'], [DEFAULTS[0]], 'args', 'kw'),
                       (['a'], [DEFAULTS[0]], None, 'kw'), ([], [], 'args', 'kw'), (['a', 'b', 'c'], [DEFAULTS[0], DEFAULTS[1]], None, None)])
     params, defaults, va, vk = sig
@@ -235,8 +301,8 @@ def gen_cache(rng, raising=False):
         calls = list(valid_calls(sig))
         a, k = rng.choice(calls)
         vals = {}
-        a = [vals.setdefault(('p', i), cache_arg(rng)) for i in range(len(a))]
-        k = {n: cache_arg(rng) for n in k}
+        a = [vals.setdefault(('p', i), cache_arg(rng, unhashable)) for i in range(len(a))]
+        k = {n: cache_arg(rng, unhashable) for n in k}
         if raising and rng.random() < 0.4 and a:
             a[0] = '!v'
         pool.append((a, k))
@@ -250,13 +316,17 @@ def gen_cache(rng, raising=False):
             items = list(k.items())
             rng.shuffle(items)
             k = dict(items)
-        elif r < 0.4 and a and a[-1:] and params and len(a) <= len(params) and params[len(a) - 1] not in k:
+        elif r < 0.45:
+            # a DIFFERENT combination that the pinned key normalisation merged: list <-> tuple, dict <-> tuple of pairs
+            a = [seq_twin(rng, x) for x in a]
+            k = {n: seq_twin(rng, x) for n, x in k.items()}
+        elif r < 0.6 and a and a[-1:] and params and len(a) <= len(params) and params[len(a) - 1] not in k:
             # the same arguments, the last positional one passed by keyword: a different combination "as passed"
             k = dict(k, **{params[len(a) - 1]: a[-1]})
             a = a[:-1]
         hist.append((list(a), dict(k)))
     line = '(deco cache %s %s)' % (sig_enc(sig), '(L' + ''.join(' (T %s %s)' % (enc(a), enc(k)) for a, k in hist) + ')')
-    return dict(tag='cache history len=%d%s' % (len(hist), ' raising' if raising else ''), lines=[line])
+    return dict(tag='cache history len=%d%s%s' % (len(hist), ' raising' if raising else '', ' set/ndarray arguments' if unhashable else ''), lines=[line])
 
 
 def generate(rng, tier):
@@ -322,6 +392,8 @@ def generate(rng, tier):
         yield gen_cache(rng)
     for _ in range(100 if q else 4000):
         yield gen_cache(rng, raising=True)
+    for _ in range(150 if q else 4000):
+        yield gen_cache(rng, raising=rng.random() < 0.2, unhashable=True)
 
 
 # ---------------------------------------------------------------- implementation runner
@@ -345,9 +417,21 @@ def run_line(state, sx):
         g = make_fn((['a', 'b'], [1], None, None))
         base = g
         made = []
-        for cls, params in decos_dec(a[0]):
+        base_spec = spec_fields(inspect.getfullargspec(base))
+        for j, (cls, params) in enumerate(decos_dec(a[0])):
             g = construct(cls, params, g)
             made.append((g, enc([(c, p) for c, p in dump(g)[0]])))
+            # the memo field: request the specification of some of the objects built so far (outer or inner), so that later
+            # constructors work on objects whose memo is already filled
+            if (j + len(cls)) % 2 == 0:
+                probe = made[(j * 7 + len(cls)) % len(made)][0]
+                if spec_fields(pyg_base.getargspec(probe)) != base_spec:
+                    raise AssertionError('argument specification not forwarded (intermediate object)')
+        if spec_fields(pyg_base.getargspec(g)) != base_spec:
+            raise AssertionError('argument specification not forwarded after re-wrapping')
+        for o, _ in made:
+            if spec_fields(pyg_base.getargspec(o)) != base_spec:
+                raise AssertionError('argument specification of an earlier object changed')
         chain, b = dump(g)
         assert b is base
         # observation outside the property statement: did a constructor edit an earlier object in place?
@@ -364,10 +448,12 @@ def run_line(state, sx):
         out = []
         first_none = {}
         for call in a[1][1:]:
-            args, kw = proto.dec(call[1]), proto.dec(call[2])
-            r = res_val(lambda: c(*args, **kw))
+            wa, wk = proto.dec(call[1]), proto.dec(call[2])
+            args, kw = unmark(wa), unmark(wk)
+            r = mark(res_val(lambda: c(*args, **kw)))
             if r is None:        # the function returned None (marker `~none`): report the binding of the FIRST call with this key, as the model does; the evaluation count is what matters
-                r = first_none.setdefault(ref_key(args, kw), dict(inspect.getcallargs(f, *args, **kw)))
+                b = dict(inspect.getcallargs(f, *wa, **wk))
+                r = b if has_arr((wa, wk)) else first_none.setdefault(ref_key(wa, wk), b)
             out.append((r, Counter.n))
         return 'ok ' + enc(out)
     if op == 'stack':
@@ -445,13 +531,17 @@ def same_wrapper(x, y):
 
 
 def ref_key(args, kw):
+    """the combination of arguments as passed, up to python ==: container types are kept ([1] != (1,), a dict is not the tuple
+    of its pairs), dicts are mappings, 1 == 1.0 == True; written independently of the library's `_prehash`"""
     def h(v):
-        if isinstance(v, (list, tuple)):
-            return tuple(h(x) for x in v)
+        if isinstance(v, list):
+            return ('list',) + tuple(h(x) for x in v)
+        if isinstance(v, tuple):
+            return ('tuple',) + tuple(h(x) for x in v)
         if isinstance(v, dict):
-            return tuple(sorted((k, h(x)) for k, x in v.items()))
-        return v
-    return (h(args), h(kw))
+            return ('dict', frozenset((k, h(x)) for k, x in v.items()))
+        return ('cell', v)
+    return (h(list(args)), h(dict(kw)))
 
 
 def laws(rng, tier, ctx):
@@ -493,6 +583,90 @@ def laws(rng, tier, ctx):
             if got != direct:
                 yield Finding('violation', dict(tag='law-transparent', lines=[line]),
                               'decorated call gives %r, f gives %r' % (got, direct))
+    # (2b) arguments that are not scalars: int / float ndarrays (also inside a list), namedtuples, lists, dicts - through every single
+    # decorator and random stacks.  pd2np turns int arrays into float arrays before calling f (documented: "will also convert int
+    # numpy arrays into floaters") - known finding K6, recognised precisely: the result is f's result on the converted arguments
+    import numpy as np, collections
+    P2 = collections.namedtuple('P2', ['x', 'y'])
+
+    def show(v):
+        if isinstance(v, np.ndarray):
+            return 'array(%s, %s)' % (v.tolist(), v.dtype)
+        if isinstance(v, dict):
+            return '{%s}' % ', '.join('%r: %s' % (k, show(x)) for k, x in v.items())
+        if isinstance(v, (list, tuple)):
+            return '%s(%s)' % (type(v).__name__, ', '.join(show(x) for x in v))
+        return repr(v)
+
+    def i2f(v):
+        if isinstance(v, np.ndarray) and v.dtype.kind == 'i':
+            return v.astype(float)
+        if isinstance(v, dict):
+            return {k: i2f(x) for k, x in v.items()}
+        if isinstance(v, (list, tuple)):
+            return type(v)(*[i2f(x) for x in v]) if hasattr(v, '_fields') else type(v)([i2f(x) for x in v])
+        return v
+    specials = [lambda: np.array([1, 2]), lambda: np.array([1.5, 2.5]), lambda: [np.array([1, 2]), 3], lambda: P2(1, 2), lambda: P2(np.array([3]), 'x'),
+                lambda: {'k': np.array([1, 2])}, lambda: [1, [2, 3]], lambda: {'p': 1}]
+    for sig, args, kw in rng.sample(allcalls, 150 if tier == 'quick' else len(allcalls)):
+        if not args and not kw:
+            continue
+        f = make_fn(sig)
+        for ds in stacks + [[(c, deco_params(rng, c)) for c in rng.sample(CLASSES, rng.choice([2, 3]))]]:
+            if any(c in ('loops', 'try_back') for c, _ in ds):
+                continue          # loops on a container argument is C19; try_back returns the argument itself
+            if sig[3] and any(c == 'kwargs_support' for c, _ in ds) and any(n not in sig[0] for n in kw):
+                continue          # K1 (reported by law (2) with a replayable line)
+            mk = rng.choice(specials)
+            pos = rng.randrange(len(args) + len(kw))
+
+            def build():
+                a, k = list(args), dict(kw)
+                if pos < len(a):
+                    a[pos] = mk()
+                else:
+                    k[sorted(k)[pos - len(a)]] = mk()
+                return a, k
+            count += 1
+            g = f
+            for cls, params in ds:
+                g = construct(cls, params, g)
+            a, k = build()
+            direct = show(res_val(lambda: f(*a, **k)))
+            a, k = build()
+            got = show(res_val(lambda: g(*a, **k)))
+            if got != direct:
+                a, k = build()
+                conv = show(res_val(lambda: f(*i2f(a), **i2f(k))))
+                k6 = any(c == 'pd2np' for c, _ in ds) and got == conv
+                yield Finding('violation', dict(tag='law-pd2np-int-array' if k6 else 'law-transparent-containers', lines=[],
+                                                values=[sig_enc(sig), decos_enc(ds), show(a), show(k)]),
+                              'decorated call %s(*%s, **%s) gives %s, f gives %s' % ([c for c, _ in ds], show(a), show(k), got, direct))
+    # (2c) a stack that CONTAINS cache, called several times (the stack lines make one call per constructed stack): every reply is what
+    # f returns on that call, and f runs once per distinct call
+    for _ in range(300 if tier == 'quick' else 5000):
+        sig, args, kw = rng.choice(allcalls)
+        sig2, args2, kw2 = sig, [x + 100 for x in args], {n: x + 100 for n, x in kw.items()}
+        if not args and not kw:
+            continue
+        others = [c for c in rng.sample(['try_value', 'kwargs_support', 'pd2np', 'try_back'], rng.choice([0, 1, 2]))]
+        ds = [(c, deco_params(rng, c)) for c in others + ['cache_func']]
+        rng.shuffle(ds)
+        if sig[3] and any(c == 'kwargs_support' for c, _ in ds) and any(n not in sig[0] for n in kw):
+            continue              # K1
+        f = make_fn(sig)
+        g = f
+        for cls, params in ds:
+            g = construct(cls, params, g)
+        count += 1
+        Counter.n = 0
+        hist = [(args, kw), (args2, kw2), (args, kw), (args2, kw2), (args, kw)]
+        outs = [res_val(lambda: g(*copy.deepcopy(a), **copy.deepcopy(k))) for a, k in hist]
+        evals = Counter.n
+        exps = [f(*a, **k) for a, k in hist]
+        if outs != exps or evals != 2:
+            yield Finding('violation', dict(tag='law-cache-in-stack', lines=['(deco stack %s %s %s %s)' % (sig_enc(sig), decos_enc(ds), enc(list(args)), enc(dict(kw)))]),
+                          'stack with cache called 5 times on 2 distinct calls: replies %r, f gives %r, f evaluated %d times' % (outs, exps, evals))
     # (3) wrapping twice = wrapping once, directly and through a chain of other decorators
     base = make_fn((['a', 'b'], [1], None, None))
     for c in CLASSES:
@@ -575,31 +749,35 @@ def laws(rng, tier, ctx):
     if b() != [] or a(2) != []:
         yield Finding('violation', dict(tag='law-try-value-fallback', lines=[]), 'try_list wrappers share one mutable fallback object: %r / %r' % (a(2), b()))
     # (6) cache: one evaluation per distinct combination as passed, first result thereafter
-    for _ in range(300 if tier == 'quick' else 5000):
-        case = gen_cache(rng)
+    for j in range(400 if tier == 'quick' else 7000):
+        case = gen_cache(rng, unhashable=j % 4 == 3)
         sx = proto.parse(case['lines'][0])
         sig = sig_dec(sx[2])
         f = make_fn(sig)
         c = cache_func(f)
         Counter.n = 0
         seen = {}
-        ok = True
+        failing = []
         for call in sx[3][1:]:
-            args, kw = proto.dec(call[1]), proto.dec(call[2])
-            key = ref_key(args, kw)
+            wa, wk = proto.dec(call[1]), proto.dec(call[2])
+            args, kw = unmark(wa), unmark(wk)
+            key = ref_key(wa, wk)            # marker strings: a set / an array is the same argument iff it is spelt the same
             before = Counter.n
-            got = c(*args, **kw)
+            got = mark(c(*args, **kw))
             count += 1
             if key in seen:
                 good = Counter.n == before and got == seen[key]
             else:
-                good = Counter.n == before + 1 and got == f(*args, **kw)
+                good = Counter.n == before + 1 and got == mark(f(*args, **kw))
                 Counter.n = before + 1
                 seen[key] = got
             if not good:
-                ok = False
-        if not ok:
-            yield Finding('violation', dict(case, tag='law-cache'), 'cached function does not evaluate once per distinct combination / return the first result')
+                failing.append((wa, wk))
+        if failing:
+            # K5: the only calls that fail are repeated calls with an ndarray argument (evaluated again, by design)
+            k5 = all(has_arr(x) for x in failing)
+            yield Finding('violation', dict(case, tag='law-cache-ndarray' if k5 else 'law-cache'),
+                          'cached function does not evaluate once per distinct combination / return the first result: %s' % enc(list(failing[0])))
     yield count
 
 
@@ -625,8 +803,18 @@ def _k1(f):
     return bool(lines) and all(line_is_k1(l) for l in lines[-1:]) and ('stack' in f.case.get('tag', '') or f.case.get('tag') == 'law-transparent')
 
 
+def _k6(f):
+    return f.case.get('tag') == 'law-pd2np-int-array'
+
+
+def _k5(f):
+    return f.case.get('tag') == 'law-cache-ndarray'
+
+
 MATCHERS = {'kwargs_support_drops_undeclared_keyword_of_varkw_function': _k1,
-            'loops_consumes_keyword_called_axis': _k4}
+            'loops_consumes_keyword_called_axis': _k4,
+            'cache_reevaluates_ndarray_argument': _k5,
+            'pd2np_converts_int_array_to_float': _k6}
 
 
 def shrink(case, still_fails):
